@@ -29,9 +29,6 @@ use crate::common::{self, Listing, Node, RangeCfg};
 use crate::downloader::{Call, StepPlan, TaskKey};
 
 pub const PROPERTY: &str = "C19";
-pub const F_FOREIGN: &str = "C19-foreign-entry-in-immutable-archive";
-pub const F_RANGE: &str = "C19-immutable-outside-requested-range";
-pub const F_TEMP: &str = "C19-ancillary-temp-dir-left-on-abort";
 
 #[derive(Serialize, Deserialize, Clone, Debug)]
 pub struct MirrorCfg {
@@ -418,9 +415,11 @@ fn path_anc(root: &Path, step: usize, mirror: usize, comp: Comp) -> PathBuf {
     root.join(format!("s{step}/m{mirror}/ancillary.{}", comp.ext()))
 }
 
-fn extra_entry(cfg: &Config, path: &str, kind: &ExtraKind, len: usize) -> Entry {
+fn extra_entry(cfg: &Config, path: &str, kind: &ExtraKind, len: usize, task: TaskRef) -> Entry {
     let kind = match kind {
-        ExtraKind::File => EntryKind::File(Rng::for_run(cfg.content_seed, path, len as u64).bytes(len)),
+        // content depends on the archive it is planted in, so the oracle can tell which archive a
+        // surviving file came from
+        ExtraKind::File => EntryKind::File(Rng::for_run(cfg.content_seed, &format!("{path}@{task:?}"), len as u64).bytes(len)),
         ExtraKind::Symlink(t) => EntryKind::Symlink(t.clone()),
         ExtraKind::Dir => EntryKind::Dir,
     };
@@ -468,7 +467,7 @@ pub fn build_step(cfg: &Config, faults: &[Fault], step: usize, root: &Path) -> B
             for f in &fs {
                 match f {
                     Fault::Extra { path, kind, len, front, .. } => {
-                        let e = extra_entry(cfg, path, kind, *len);
+                        let e = extra_entry(cfg, path, kind, *len, TaskRef::Imm(n));
                         if *front { entries.insert(0, e) } else { entries.push(e) }
                     }
                     Fault::DropEntry { index, .. } => {
@@ -524,7 +523,7 @@ pub fn build_step(cfg: &Config, faults: &[Fault], step: usize, root: &Path) -> B
         for f in &fs {
             match f {
                 Fault::Extra { path, kind, len, front, .. } => {
-                    let e = extra_entry(cfg, path, kind, *len);
+                    let e = extra_entry(cfg, path, kind, *len, TaskRef::Anc);
                     if *front { entries.insert(0, e) } else { entries.push(e) }
                 }
                 Fault::DropEntry { index, .. } => {
@@ -737,7 +736,7 @@ fn normalise_path(p: &str) -> String {
     }
 }
 
-pub fn execute(node: &ClientNode, cfg: &Config, faults: &[Fault], force_parallel_one: bool) -> Outcome {
+pub fn execute(node: &ClientNode, cfg: &Config, faults: &[Fault]) -> Outcome {
     let scratch = Scratch::new("c19");
     let mirror_root = scratch.sub("mirror");
     let boxdir = scratch.sub("box");
@@ -766,7 +765,7 @@ pub fn execute(node: &ClientNode, cfg: &Config, faults: &[Fault], force_parallel
                 tasks.push(TaskKey::Anc);
             }
         }
-        let parallel = if force_parallel_one { 1 } else { sc.parallel };
+        let parallel = sc.parallel;
         node.dl.begin(StepPlan {
             tasks,
             parallel,
@@ -975,18 +974,9 @@ fn judge_step(
             Node::Symlink { target } => {
                 if is_temp_path(p) {
                     push("temp-dir-content-survives", &normalise_path(p), format!("symlink `{}` left behind in the temporary ancillary directory", normalise_path(p)), out);
-                } else if let Some(name) = p.strip_prefix("immutable/")
-                    && let Some(n) = common::parse_trio_name(name)
-                {
-                    // judged by name like any immutable file: the statement restricts which
-                    // immutable files appear, their content is C10's business
-                    if bounds.is_some_and(|(lo, hi)| n >= lo && n <= hi) {
-                        out.classes.insert("immutable-in-range-symlink".into());
-                    } else {
-                        out.classes.insert("immutable-outside-range".into());
-                        push("immutable-outside-range", p, format!("{pre} immutable file (symlink) `{p}` is outside the requested range {:?} (beacon {})", sc.range, cfg.beacon), out);
-                    }
                 } else {
+                    // a symlink is never an immutable or ancillary *file* of the database, whatever
+                    // its name: what it designates lives outside what was verified
                     out.classes.insert("foreign-symlink".into());
                     push("foreign-file", p, format!("{pre} symlink `{p}` -> `{target}`"), out);
                 }
@@ -1072,31 +1062,18 @@ fn judge_step(
 // attribution, minimisation, reports
 // ---------------------------------------------------------------------------------------------
 
-fn is_trigger_foreign(cfg: &Config, f: &Fault) -> bool {
-    let _ = cfg;
-    match f {
-        Fault::Extra { task: TaskRef::Imm(_), path, .. } => match landing_path(path) {
-            Some(p) => !p.starts_with("immutable/"),
-            None => false,
-        },
-        _ => false,
-    }
+/// A known, unrepaired defect: its id in known-findings.json and how to take its trigger out of
+/// a scenario (`None` when the scenario does not contain the trigger).
+pub struct KnownTrigger {
+    pub id: &'static str,
+    pub neutralise: fn(&Config, &[Fault]) -> Option<(Config, Vec<Fault>)>,
 }
 
-fn is_trigger_range(cfg: &Config, f: &Fault) -> bool {
-    match f {
-        Fault::Extra { step, task: TaskRef::Imm(_), path, .. } => {
-            let Some(p) = landing_path(path) else { return false };
-            let Some(name) = p.strip_prefix("immutable/") else { return false };
-            let Some(n) = common::parse_trio_name(name) else { return false };
-            match cfg.steps[*step].range.bounds(cfg.beacon) {
-                Some((lo, hi)) => n < lo || n > hi,
-                None => false,
-            }
-        }
-        _ => false,
-    }
-}
+/// Empty: the three defects this engine found (foreign entries of immutable archives, immutable
+/// files outside the requested range, ancillary temp dir left on abort) were repaired in /repo
+/// (known-findings.json status `fixed`, which suppresses nothing), so every violation is
+/// reported unattributed. The counterfactual machinery below stays for future entries.
+pub const KNOWN_TRIGGERS: &[KnownTrigger] = &[];
 
 type VKey = (usize, &'static str, String);
 fn vkeys(o: &Outcome) -> BTreeSet<VKey> {
@@ -1109,41 +1086,25 @@ pub fn attribute(node: &ClientNode, cfg: &Config, faults: &[Fault], out: &Outcom
     if out.violations.is_empty() {
         return vec![];
     }
-    let without = |pred: &dyn Fn(&Fault) -> bool| -> Option<BTreeSet<VKey>> {
-        if !faults.iter().any(pred) {
-            return None;
-        }
-        let kept: Vec<Fault> = faults.iter().filter(|f| !pred(f)).cloned().collect();
-        Some(vkeys(&execute(node, cfg, &kept, false)))
-    };
-    let no_foreign = without(&|f| is_trigger_foreign(cfg, f));
-    let no_range = without(&|f| is_trigger_range(cfg, f));
-    let serial = if cfg.steps.iter().any(|s| s.parallel > 1) && out.violations.iter().any(|v| v.clause == "temp-dir-content-survives") {
-        Some(vkeys(&execute(node, cfg, faults, true)))
-    } else {
-        None
-    };
+    let counterfactuals: Vec<(&'static str, BTreeSet<VKey>)> = KNOWN_TRIGGERS
+        .iter()
+        .filter_map(|t| {
+            let (c, f) = (t.neutralise)(cfg, faults)?;
+            Some((t.id, vkeys(&execute(node, &c, &f))))
+        })
+        .collect();
     out.violations
         .iter()
         .map(|v| {
             let key: VKey = (v.step, v.clause, v.path.clone());
-            let gone = |s: &Option<BTreeSet<VKey>>| s.as_ref().is_some_and(|s| !s.contains(&key));
-            let f = if gone(&no_foreign) {
-                Some(F_FOREIGN)
-            } else if gone(&no_range) {
-                Some(F_RANGE)
-            } else if gone(&serial) {
-                Some(F_TEMP)
-            } else {
-                None
-            };
-            (v.clone(), f)
+            let finding = counterfactuals.iter().find(|(_, still)| !still.contains(&key)).map(|(id, _)| *id);
+            (v.clone(), finding)
         })
         .collect()
 }
 
 pub fn minimise(node: &ClientNode, cfg: &Config, faults: &[Fault], clause: &str, budget: usize) -> (Config, Vec<Fault>) {
-    let fails = |cand: &[Fault]| execute(node, cfg, cand, false).violations.iter().any(|v| v.clause == clause);
+    let fails = |cand: &[Fault]| execute(node, cfg, cand).violations.iter().any(|v| v.clause == clause);
     let min_faults = sim_core::ddmin::ddmin(faults.to_vec(), fails, budget);
     // drop steps that are not needed (keep fault step indices consistent)
     let mut best = (cfg.clone(), min_faults);
@@ -1161,7 +1122,7 @@ pub fn minimise(node: &ClientNode, cfg: &Config, faults: &[Fault], clause: &str,
                 })
                 .collect();
             if let Some(fs) = fs
-                && execute(node, &c, &fs, false).violations.iter().any(|v| v.clause == clause)
+                && execute(node, &c, &fs).violations.iter().any(|v| v.clause == clause)
             {
                 best = (c, fs);
                 break;
@@ -1182,7 +1143,7 @@ pub fn minimise(node: &ClientNode, cfg: &Config, faults: &[Fault], clause: &str,
             }
             _ => c.steps.iter_mut().for_each(|s| s.picks = vec![0]),
         }
-        if execute(node, &c, &best.1, false).violations.iter().any(|v| v.clause == clause) {
+        if execute(node, &c, &best.1).violations.iter().any(|v| v.clause == clause) {
             best.0 = c;
         }
     }
@@ -1328,8 +1289,13 @@ pub fn finish_report(
         let target = unknown.or_else(|| {
             report.violations.iter().find(|v| !v.finding.as_deref().is_some_and(|id| known.is_known(PROPERTY, id)))
         });
+        // minimisation re-executes the scenario some 50 times: do it for the first few violating
+        // runs of each worker process only (replays of the others carry the full trace)
+        static MINIMISED: std::sync::atomic::AtomicU32 = std::sync::atomic::AtomicU32::new(0);
+        let budget_left = MINIMISED.load(std::sync::atomic::Ordering::Relaxed) < 4;
         match target {
-            Some(v) if minimise_unknown => {
+            Some(v) if minimise_unknown && budget_left => {
+                MINIMISED.fetch_add(1, std::sync::atomic::Ordering::Relaxed);
                 let clause = v.clause.clone();
                 let (c, f) = minimise(node, cfg, faults, &clause, 40);
                 report.replay = Some(replay_doc(&c, &f));
@@ -1358,7 +1324,7 @@ pub fn run(ctx: &sim_core::RunCtx) -> RunReport {
     for k in 0..batch {
         let mut rng = Rng::for_run(ctx.seed, PROPERTY, ctx.run * batch + k);
         let (cfg, faults) = generate(&mut rng);
-        let out = execute(node, &cfg, &faults, false);
+        let out = execute(node, &cfg, &faults);
         let mut sub = RunReport::new(ctx.run);
         finish_report(node, &cfg, &faults, &out, &mut sub, true);
         for (key, n) in &sub.counters {
@@ -1407,7 +1373,7 @@ pub fn replay(doc: &Value) -> RunReport {
         .unwrap_or_else(|e| common::harness_error(&format!("bad C19 replay config: {e}")));
     let faults: Vec<Fault> = serde_json::from_value(doc["faults"].clone())
         .unwrap_or_else(|e| common::harness_error(&format!("bad C19 replay faults: {e}")));
-    let out = execute(node, &cfg, &faults, false);
+    let out = execute(node, &cfg, &faults);
     let mut report = RunReport::new(0);
     finish_report(node, &cfg, &faults, &out, &mut report, false);
     for v in &out.violations {
